@@ -382,8 +382,14 @@ fn check_hist(h: &HistCase, ctx: &mut CaseCtx) -> CaseResult {
     Ok(())
 }
 
+fn check_tables_in_frame(case: &crate::props::c16::Case, ctx: &mut CaseCtx) -> CaseResult {
+    crate::props::c16::check(case, ctx)?;
+    ctx.nontrivial = true;
+    Ok(())
+}
+
 pub fn run(eng: &Engine) {
-    eng.set_rule("(decoder) valid normalized distributions built constructively for accuracy logs 5..9 (support, less-than-one symbols, zero runs crossing the 3-repeat flag, shapes: all ones / one dominant / powers of two / all less-than-one), serialised by the model writer, parsed by FSETable::build_decoder and compared state by state (symbol, bits, baseline) with the table the specification defines; all distributions over <= 4 symbols in 6 slots at log 5 exhaustively; predefined LL/ML/OF tables on both sides vs the published tables; (encoder, production parameters max log 9/8/9/6 and zero-bit avoidance on) symbol sequences over LL/OF/ML/weight alphabets through build_table_from_data: probability sum, log range, support, description written by the compressor parses back (specification and decoder) to exactly the table used, encoder state table == decoding table, single-state and interleaved streams decode to the same symbols with 0 bits left; non-trivial = >= 3 symbols with a less-than-one probability or a zero run (decoder) / >= 2 distinct symbols (encoder); distinct by distribution / histogram hash");
+    eng.set_rule("(decoder) valid normalized distributions built constructively for accuracy logs 5..9 (support, less-than-one symbols, zero runs crossing the 3-repeat flag, shapes: all ones / one dominant / powers of two / all less-than-one), serialised by the model writer, parsed by FSETable::build_decoder and compared state by state (symbol, bits, baseline) with the table the specification defines; all distributions over <= 4 symbols in 6 slots at log 5 exhaustively; predefined LL/ML/OF tables on both sides vs the published tables; (encoder, production parameters max log 9/8/9/6 and zero-bit avoidance on) symbol sequences over LL/OF/ML/weight alphabets through build_table_from_data: probability sum, log range, support, description written by the compressor parses back (specification and decoder) to exactly the table used, encoder state table == decoding table, single-state and interleaved streams decode to the same symbols with 0 bits left; (compressor call sites) sequence lists with code histograms flat over 6..16 codes plus one rare code for offsets / literal lengths / match lengths, compressed by the real block compressor through a scripted matcher: both decoders restore the input and the strict walker accepts every table description under the limit of ITS table (LL 9, OF 8, ML 9); non-trivial = >= 3 symbols with a less-than-one probability or a zero run (decoder) / >= 2 distinct symbols (encoder); distinct by distribution / histogram hash");
     selftest::code_tables(eng);
     if let Err(f) = check_predefined(eng) {
         eng.report_violation("predefined_tables", &json!(null), &f);
@@ -393,6 +399,12 @@ pub fn run(eng: &Engine) {
     let n2 = eng.tier.pick(250_000, 3_000_000);
     eng.run_stage("decoder_distributions", n1, dist_strategy, check_dist);
     eng.run_stage("encoder_histograms", n2, hist_strategy, check_hist);
+    // the compressor's own call sites (which limit goes with which table): sequence lists whose
+    // code histograms are flat over many codes - the shape that reaches the largest accuracy logs -
+    // handed to the real block compressor through a scripted matcher; the strict walker enforces
+    // the per-table limits (LL 9, OF 8, ML 9) on every description in the emitted frame
+    let n3 = eng.tier.pick(4_000, 80_000);
+    eng.run_stage("compressor_tables_in_frames", n3, crate::props::c16::flat_codes_strategy, check_tables_in_frame);
     let fam = small_family();
     let cap = if eng.tier == Tier::Quick { 60_000 } else { fam.len() };
     let step = (fam.len() / cap).max(1);
@@ -419,6 +431,7 @@ pub fn replay(eng: &Engine, stage: &str, case: &Value) -> CaseResult {
     match stage {
         "decoder_distributions" => eng.replay_value(stage, case, check_dist),
         "encoder_histograms" => eng.replay_value(stage, case, check_hist),
+        "compressor_tables_in_frames" => eng.replay_value(stage, case, check_tables_in_frame),
         "small_distributions" => {
             let i = case["index"].as_u64().ok_or_else(|| Failure::new("machinery", "index missing"))? as usize;
             let thorough = case["tier"].as_str() == Some("thorough");
